@@ -91,6 +91,7 @@ type Exec struct {
 	trace           *Term
 	segs            []schedSeg
 	schedMode       bool
+	strVals         map[string]string
 }
 
 type schedSeg struct {
